@@ -166,7 +166,14 @@ def seq_slice(s, lo, hi, ctx):
 def _common_flags(s):
     fl = None
     for g in s.segs:
-        f = g.flags if isinstance(g, Gen) else frozenset()
+        if isinstance(g, Gen):
+            f = g.flags
+        elif all((isz(t) and _known_ascii(t)) or (not isz(t) and chr(t) in "0123456789abcdef") for t in g.terms):
+            f = frozenset({"hex", "ascii", "lower"})
+        elif all(not isz(t) and t < 128 for t in g.terms):
+            f = frozenset({"ascii"})
+        else:
+            f = frozenset()
         fl = f if fl is None else (fl & f)
     return fl or frozenset()
 
@@ -763,8 +770,15 @@ def dec_gen(n):
 
 
 def str_of_int(n, ctx):
+    """decimal text of an int; the segment(s) carry origin ('dec', n) so that models can recover the number"""
     if not isz(n):
         return str(n)
     if ctx.entails(z3.And(n >= 0, n <= 999)):
         return Seq('str', [dec_gen(n)])
-    return format_int(n, "", ctx)
+    r = format_int(n, "", ctx)
+    if isinstance(r, Seq) and r.fixed():
+        ts = r.terms()
+        g = Gen(len(ts), lambda i, ts=ts: Elems(ts).at(i), ("decf", n.get_id(), len(ts)), 0, {"ascii"})
+        g.origin = ("dec", n)
+        return Seq('str', [g])
+    return r
